@@ -18,6 +18,8 @@ for every input) that the hand-written model functions are these tables.
     redirOpOfOperator / operatorOfRedirOp / caseContinuationOfOperator / operatorOfCaseContinuation /
     andOrOfOperator / operatorOfAndOr
                       the `TryFrom<Operator>` / `From<..> for Operator` impls   yash-syntax/src/syntax/conversions.rs
+    posixGlossary / posixGlossaryDefault
+                      `impl Glossary for PosixGlossary` (`is_declaration_utility`)      yash-env/src/decl_util.rs
     commandLineAcceptedTrailing
                       the token ids for which `error_type_for_trailing_token_in_command_line` answers `None`
                       (i.e. what may follow a command line that is not ended by a newline)
@@ -37,6 +39,7 @@ OP = "yash-syntax/src/parser/lex/op.rs"
 LEXCORE = "yash-syntax/src/parser/lex/core.rs"
 CONV = "yash-syntax/src/syntax/conversions.rs"
 LIST = "yash-syntax/src/parser/list.rs"
+DECL = "yash-env/src/decl_util.rs"
 
 CHAR_RE = r"'(?:\\x[0-9a-fA-F]{2}|\\u\{[0-9a-fA-F]+\}|\\.|[^\\'])'"
 
@@ -492,6 +495,43 @@ def accepted_trailing(T, src):
     return sorted(walk(body, ""))
 
 
+def posix_glossary(T, src):
+    """`impl Glossary for PosixGlossary`: ([(name, "true"|"false"|"none")], default)"""
+    what = "PosixGlossary::is_declaration_utility"
+    body = fn_body(T, src, r"\bimpl\s+Glossary\s+for\s+PosixGlossary\s*\{", "is_declaration_utility", what)
+    ma = match_arms(T, body, what)
+    if ma is None:
+        T.fail(f"syntax.py: {what}: the body is not a single match")
+    if ma[0] != "name":
+        T.fail(f"syntax.py: {what}: match on `{ma[0]}`, expected `name`")
+
+    def val(res):
+        r = re.sub(r"\s+", "", res)
+        if r == "None":
+            return "none"
+        m = re.fullmatch(r"Some\((true|false)\)", r)
+        if not m:
+            T.fail(f"syntax.py: {what}: cannot classify the result `{res.strip()[:40]}`")
+        return m.group(1)
+    out, default = [], None
+    for pats, res in ma[1]:
+        ps = [q.strip() for q in split_top(pats, "|") if q.strip()]
+        if ps == ["_"]:
+            if default is not None:
+                T.fail(f"syntax.py: {what}: two `_` arms")
+            default = val(res)
+            continue
+        if default is not None:
+            T.fail(f"syntax.py: {what}: arm after the `_` arm")
+        for q in ps:
+            out.append((str_lit(T, q, what), val(res)))
+    if default is None:
+        T.fail(f"syntax.py: {what}: no `_` arm")
+    if len({n for n, _ in out}) != len(out):
+        T.fail(f"syntax.py: {what}: a name is matched twice")
+    return sorted(out), default
+
+
 def lstr(s):
     out = ['"']
     for c in s:
@@ -572,6 +612,7 @@ def syntax_tables(T):
     op_of_ao = conversion(T, csrc, r"\bimpl\s+From\s*<\s*AndOr\s*>\s*for\s+Operator\s*\{", "from",
                           "From<AndOr> for Operator", "AndOr", and_ors, "Operator", ops, False)
     trailing = accepted_trailing(T, lsrc)
+    glossary, glossary_default = posix_glossary(T, load(T, DECL))
 
     def node(edges):
         return "[" + ", ".join(
@@ -628,6 +669,13 @@ def operatorOfAndOr : List (String × String) := {pairs(op_of_ao)}
 /-- the token ids after which `Parser::command_line` (list.rs) accepts a line that no newline ends:
     the arms of `error_type_for_trailing_token_in_command_line` that answer `None` -/
 def commandLineAcceptedTrailing : List String := {strs(trailing)}
+
+/-- `impl Glossary for PosixGlossary` (yash-env/src/decl_util.rs, the glossary of `List::from_str`): (command name,
+    answer of `is_declaration_utility`: "true" | "false" | "none" = decided by the next word), sorted -/
+def posixGlossary : List (String × String) := {pairs(glossary)}
+
+/-- the `_` arm of `PosixGlossary::is_declaration_utility` -/
+def posixGlossaryDefault : String := {lstr(glossary_default)}
 """
     T.write("SyntaxTables", body)
 
